@@ -190,3 +190,48 @@ Example sessions_example :
   exists s, run FIX24 init_go ex_sessions = Ok s /\
     result_of s 0%nat = Some RTimeout /\ result_of s 1%nat = Some RNil /\ tbl s = [].
 Proof. eexists. split; [vm_compute; reflexivity|]. repeat split; vm_compute; reflexivity. Qed.
+
+(* ------------------------------------------------------------------ *)
+(* clause audit (round 7): a reply completes at most one waiter *)
+
+Theorem notify_at_most_one fx s i s' q1 q2 : Inv s -> step fx s (Notify i) = Ok s' ->
+  pget (pings s') q1 <> pget (pings s) q1 -> pget (pings s') q2 <> pget (pings s) q2 -> q1 = q2.
+Proof.
+  intros HI H H1 H2.
+  destruct (notify_only_owner _ _ _ _ _ HI H H1) as (_ & _ & _ & T1).
+  destruct (notify_only_owner _ _ _ _ _ HI H H2) as (_ & _ & _ & T2). congruence.
+Qed.
+
+(* ... and exactly one when a call is waiting on that identifier: that call is woken, every other
+   call keeps its record, the entry is gone *)
+Theorem notify_exactly_owner fx s i q pg : Inv s -> tget (tbl s) i = Some q -> pget (pings s) q = Some pg ->
+  exists s', step fx s (Notify i) = Ok s' /\ tget (tbl s') i = None /\
+    (exists pg', pget (pings s') q = Some pg' /\ p_recv pg' = true) /\
+    (forall q', q' <> q -> pget (pings s') q' = pget (pings s) q').
+Proof.
+  intros HI Ht Hp. destruct (inv_entry _ HI _ _ Ht) as (pg0 & Hp0 & _ & Hc & _).
+  rewrite Hp in Hp0. inversion Hp0; subst pg0. cbn [step]. rewrite Ht, Hp, Hc.
+  eexists. split; [reflexivity|]. cbn [tbl pings]. rewrite tget_tdel, N.eqb_refl, pget_pset, Nat.eqb_refl.
+  split; [reflexivity|]. split; [eexists; split; reflexivity|].
+  intros q' Hne. rewrite pget_pset. destruct (Nat.eqb_spec q' q); [contradiction|reflexivity].
+Qed.
+
+(* non-vacuity of the hypotheses used above and in table_exact / distinct_run / begin_fresh:
+   after [Begin 0; Sent 0; Begin 1] two calls are outstanding and unwoken, with distinct identifiers,
+   each owning its entry; a Begin is possible (table not full) *)
+Definition ex_two : list event := [Begin 0%nat SECOND; Sent 0%nat true; Begin 1%nat 0%Z].
+Example two_outstanding :
+  exists s, run FIX24 init_go ex_two = Ok s /\ Inv s /\
+    tget (tbl s) 1 = Some 0%nat /\ tget (tbl s) 2 = Some 1%nat /\ table_full (tbl s) = false /\
+    waiting s 0%nat = true /\ waiting s 1%nat = true /\ id_of s 0%nat = Some 1 /\ id_of s 1%nat = Some 2.
+Proof.
+  eexists. split; [vm_compute; reflexivity|]. split.
+  - apply (Inv_run FIX24 1 ex_two); [reflexivity|vm_compute; reflexivity].
+  - repeat split; vm_compute; reflexivity.
+Qed.
+
+(* non-vacuity of ping_send_error: a call answered inside its send whose send then fails *)
+Example send_error_example :
+  exists s, run FIX24 init_go ([] ++ Begin 0%nat 0%Z :: [Notify 1] ++ Sent 0%nat false :: [Notify 1]) = Ok s /\
+            result_of s 0%nat = Some RSendErr /\ tbl s = [].
+Proof. eexists. split; [vm_compute; reflexivity|]. split; vm_compute; reflexivity. Qed.
